@@ -186,6 +186,7 @@ pub struct Ctx {
     pub known: Vec<KnownFinding>,
     pub inconclusive: Mutex<Vec<String>>,
     pub extra: Mutex<BTreeMap<String, Json>>,
+    samples_per_family: Mutex<BTreeMap<String, usize>>,
     start: Instant,
     stop: AtomicBool,
     replay_counter: AtomicU64,
@@ -279,6 +280,7 @@ impl Ctx {
             known,
             inconclusive: Mutex::new(vec![]),
             extra: Mutex::new(BTreeMap::new()),
+            samples_per_family: Mutex::new(BTreeMap::new()),
             start: Instant::now(),
             stop: AtomicBool::new(false),
             replay_counter: AtomicU64::new(0),
@@ -299,6 +301,30 @@ impl Ctx {
     }
     pub fn merge(&self, l: Local) {
         self.total.lock().unwrap().merge(l);
+    }
+    /// merge, keeping a few samples per generator family so the evidence shows all of them
+    pub fn merge_named(&self, name: &str, mut l: Local) {
+        let mut taken: Vec<String> = vec![];
+        {
+            let mut per = self.samples_per_family.lock().unwrap();
+            let have = per.entry(name.to_string()).or_insert(0);
+            // spread: first, middle and last of what the worker kept
+            let n = l.samples.len();
+            let picks: Vec<usize> = if n <= 2 { (0..n).collect() } else { vec![0, n / 2, n - 1] };
+            for i in picks {
+                if *have < 4 {
+                    taken.push(format!("[{}] {}", name, l.samples[i]));
+                    *have += 1;
+                }
+            }
+        }
+        l.samples = taken;
+        let mut t = self.total.lock().unwrap();
+        let keep: Vec<String> = std::mem::take(&mut l.samples);
+        t.merge(l);
+        if t.samples.len() < 60 {
+            t.samples.extend(keep);
+        }
     }
     pub fn is_known_open(&self, sig: &str) -> Option<&KnownFinding> {
         self.known
@@ -370,7 +396,7 @@ impl Ctx {
         let mut first_fail: Option<Fail> = None;
         for (l, f, inc) in results {
             evals += l.evals;
-            self.merge(l);
+            self.merge_named(name, l);
             if let Some(f) = f {
                 if first_fail.is_none() {
                     first_fail = Some(f);
@@ -513,7 +539,7 @@ impl Ctx {
         let mut best: Option<(u64, Fail)> = None;
         for (l, f) in results {
             evals += l.evals;
-            self.merge(l);
+            self.merge_named(name, l);
             if let Some((i, f)) = f {
                 if best.as_ref().map_or(true, |(bi, _)| i < *bi) {
                     best = Some((i, f));
@@ -546,7 +572,7 @@ impl Ctx {
             }),
         };
         let evals = local.evals;
-        self.merge(local);
+        self.merge_named(name, local);
         self.subchecks.lock().unwrap().push(json!({
             "name": name, "kind": "serial", "evaluations": evals,
             "wall_s": t0.elapsed().as_secs_f64(), "failed": r.is_err(),
@@ -756,7 +782,7 @@ pub fn install_crash_handler(prop: &str, verif_dir: &Path) {
             ss_size: stack_size,
         };
         libc::sigaltstack(&ss, std::ptr::null_mut());
-        for sig in [libc::SIGSEGV, libc::SIGBUS, libc::SIGILL] {
+        for sig in [libc::SIGSEGV, libc::SIGBUS, libc::SIGILL, libc::SIGABRT] {
             let mut sa: libc::sigaction = std::mem::zeroed();
             sa.sa_sigaction = on_fatal as usize;
             sa.sa_flags = libc::SA_ONSTACK;
